@@ -224,7 +224,7 @@ PostUnitInsert(s, u, x, ik, ok) ==
         THEN \* x moves from src.outs to u.outs; the upstream port gets u's inlet
              LET s2 == [s1 EXCEPT !.outs = [@ EXCEPT ![src] = ReplFirst(@, x, M), ![u] = Append(@, x)],
                                   !.source = [@ EXCEPT ![x] = u]]
-             IN IF ic[1] = "error" THEN s2
+             IN IF ic[1] = "error" THEN s     \* nothing is rewired when the call is refused
                 ELSE LET k == IndexOf(s.outs[src], x) IN PostSetItem(s2, "out", src, k, ic[2])
         ELSE IF ic[1] = "error" THEN s1
         ELSE IF ic[1] = "append" THEN PostInsert([s1 EXCEPT !.sink = [@ EXCEPT ![x] = None]], "in", u, Len(s1.ins[u]), x)
